@@ -2,7 +2,7 @@
 
 State: C = _array_counter (Counter id -> int), T = _array_tracker (dict id -> weakref), W =
 _views_waiting_for_unlock (defaultdict id -> set of ids); per array: writeable flag w, base, alive.
-id() is the array's reference (assumed injective over all arrays ever allocated).
+id() is the array's reference; ids of *live* arrays are distinct, a dead array's id may be reused (stale tracker entries).
 
 array_is_tracked(a)  ==  id(a) in T  and  the weak reference is alive
 lock_arr_writeability(a, force):
@@ -140,9 +140,10 @@ def well_formed(ctx, a, b, C, T, W, ALIVE):
     ctx.assume(b == h[("ndarray", "base")][a])
     ctx.assume(z3.Implies(b != 0, z3.And(b >= 1, b != a, ALIVE[b], h[("ndarray", "base")][b] == 0)))
     ctx.assume(z3.Not(ALIVE[0]))
-    # tracker entries refer to the array whose id is the key (id injective); counters of tracked arrays are >= 0
+    # a tracker entry under key id(x) refers to x itself, or to a *dead* array that used to live at the same address (CPython reuses
+    # ids of freed objects; such a stale entry must not count as "tracked"); counters of tracked arrays are >= 1
     for k in (a, b):
-        ctx.assume(z3.Implies(T.has(k), T.get_raw(k) == k))
+        ctx.assume(z3.Implies(T.has(k), z3.Or(T.get_raw(k) == k, z3.And(T.get_raw(k) != 0, z3.Not(ALIVE[T.get_raw(k)])))))
         ctx.assume(z3.Implies(C.has(k), C.get_raw(k) >= 1))
     ctx.assume(z3.Not(T.has(0)))
 
@@ -155,8 +156,8 @@ def lock_harness(force):
         H0 = dict(ctx.heap)
         C0, T0, W0 = C.snapshot(), T.snapshot(), W.snapshot()
         w0 = H0[("ndarray", "writeable")]
-        tracked = z3.And(T0[0][a], ALIVE[a])  # alive(a) holds
-        base_tracked = z3.And(b != 0, T0[0][b], ALIVE[b])
+        tracked = z3.And(T0[0][a], ALIVE[T0[1][a]])  # the entry's referent is alive (then it is `a` itself)
+        base_tracked = z3.And(b != 0, T0[0][b], ALIVE[T0[1][b]])
         f = interp.global_lookup(interp.module(LM), "lock_arr_writeability")
         meta = dict(function=f"{LM}:lock_arr_writeability", force=force)
         tag = f"C08.lock[force={force}]"
@@ -260,7 +261,7 @@ def tracked_harness(ctx: Ctx):
     T0 = T.snapshot()
     r = interp.call(f, [SRef("ndarray", a)], {})
     rz = to_z3(r)
-    ctx.oblige("C08.array_is_tracked.definition", rz == z3.And(T0[0][a], ALIVE[a]), function=f"{LM}:array_is_tracked")
+    ctx.oblige("C08.array_is_tracked.definition", rz == z3.And(T0[0][a], ALIVE[T0[1][a]]), function=f"{LM}:array_is_tracked")
     ctx.oblige("C08.array_is_tracked.pure", z3.And(T.dom == T0[0], T.val == T0[1]), function=f"{LM}:array_is_tracked")
 
 
